@@ -237,15 +237,15 @@ def runModel (ts : List String) : String :=
   match ts with
   | "tcp" :: _ =>
     match parseTcp ts with
-    | some c => tcpObsStr (tcpObs c.a c.b (tcpRun c.a c.b (tcpComplete c.a c.b c.sched)))
+    | some c => tcpObsStr (tcpObs c.a c.b (tcpRunFast c.a c.b c.sched))
     | none => "bad-case"
   | "udp" :: _ =>
     match parseUdp ts with
-    | some l => udpObsStr (udpObs (udpRun .repaired l.case (udpComplete l.case l.sched)))
+    | some l => udpObsStr (udpObs (udpRunFast .repaired l.case l.sched))
     | none => "bad-case"
   | "udpv" :: _ =>
     match parseUdp ts with
-    | some l => udpObsStr (udpObsV (udpRun .repaired l.case (udpComplete l.case l.sched)))
+    | some l => udpObsStr (udpObsV (udpRunFast .repaired l.case l.sched))
     | none => "bad-case"
   | "s5" :: _ =>
     match parseS5Line ts with
